@@ -242,7 +242,8 @@ fn gen_spec(rng: &mut Rng) -> PathSpec {
         ErrKind::CompileEmptyVar, ErrKind::CompileBadJump, ErrKind::CompileBadLoopVar, ErrKind::StackoverflowAtCapture,
     ]);
     let nctx = rng.usize(4);
-    let depth = rng.usize(6);
+    // now and then a chain of calls far longer than anything a trace could be cut to unnoticed
+    let depth = if rng.chance(1, 16) { 30 + rng.usize(40) } else { rng.usize(6) };
     PathSpec {
         kind,
         contexts: (0..nctx).map(|_| (rng.below(N_CONTEXTS as u64) as u8, rng.below(4) as u8)).collect(),
@@ -348,7 +349,7 @@ pub fn build(spec: &PathSpec) -> Built {
             format!("lvl{lvl}")
         }
     };
-    let in_nested = |lvl: usize| -> bool { lvl > 0 && (spec.nested >> lvl) & 1 == 1 };
+    let in_nested = |lvl: usize| -> bool { lvl > 0 && lvl < 12 && (spec.nested >> lvl) & 1 == 1 };
     let qualified = |lvl: usize| -> String {
         if in_nested(lvl) {
             format!("sub{}.lvl{lvl}", lvl % 2)
